@@ -344,3 +344,128 @@ def chm_mixed_sections(rng, kind="uncompressed"):
     f, fields = chm.build(entries, bytes(s0), version=3, chunk_size=4096, density=2)
     members.sort(key=lambda m: chm.sort_key(m["name"]))
     return {"kind": "chm", "files": {"f.chm": f}, "members": members, "meta": {"order": ["f.chm"], "directed": "mixed-sections-" + kind}}
+
+# ------------------------------------------------------------------------------------------------------------------
+# directed families that came out of the fourth round of seeded changes (used by several checks)
+
+def mszip_cross_block_cases(rng):
+    """MSZIP folders of two or three blocks whose later blocks open with a match reaching back into the previous
+    block's history: the source straddling the 32768 boundary (it starts in the old data and runs into the new), at
+    the very end of the window, a run of one byte (distance 1) crossing the boundary - short (< 12, byte loop) and
+    long (>= 12, fast loop) matches, as a cabinet folder and as a KWAJ method-4 file.
+    yields (label, cab bytes, kwaj bytes, plaintext)"""
+    from vgen import deflate, lz, kwaj
+    from lib import minicab
+    FR = 32768
+    def first_block(runbyte=None):
+        # incompressible-ish first frame whose tail is distinctive (so that a wrong source is visible)
+        d = bytearray(rng.choice(b"abcdefghijklmnopqrstuvwxyz0123456789") for _ in range(FR))
+        if runbyte is not None: d[-40:] = bytes([runbyte]) * 40
+        return bytes(d)
+    plans = []
+    for w in (0, 1, 5):
+        for ln in (3, 8, 11, 12, 13, 40, 258):
+            for j in (1, 2, ln - 1, ln):                 # source starts j bytes before the boundary (straddles when j < ln)
+                if j < 1: continue
+                plans.append(("straddle", w, w + j, ln, None))
+            plans.append(("far", w, FR, ln, None)); plans.append(("far-1", w, FR - 1, ln, None))
+            plans.append(("far-200", w, FR - rng.randrange(2, 257), ln, None))
+    for ln in (3, 11, 12, 100, 258):
+        plans.append(("run-across", 0, 1, ln, rng.choice([0x41, 0xEE, 0xFF])))
+    rng.shuffle(plans)
+    for (label, w, dist, ln, runbyte) in plans:
+        b1 = first_block(runbyte)
+        toks = [("L", x) for x in b1]
+        lits2 = [("L", rng.choice(b"XYZ")) for _ in range(w)]
+        toks += lits2 + [("M", dist, ln)] + [("L", rng.choice(b"pqrs")) for _ in range(rng.choice([0, 3, 50]))]
+        if rng.random() < 0.5:
+            toks += [("M", rng.choice([1, 7, 300]), rng.choice([3, 12, 60]))]
+        try:
+            plain = lz.expand(toks)
+            blocks = deflate.mszip_blocks(toks, mode=rng.choice(["fixed", "dynamic"]), rng=rng)
+        except Exception:
+            continue
+        cab, _ = minicab.build([(1, blocks)], [dict(name=b"x.bin", length=len(plain), offset=0, folder=0)])
+        kw = kwaj.build(4, kwaj.mszip_payload(blocks), length=len(plain))
+        yield f"{label}-w{w}-d{dist}-l{ln}", cab, kw, plain
+
+def lzss_wrap_group_cases(rng):
+    """LZSS streams in which a group of eight literals (control byte 0xFF) starts at each ring position 4088..4095, i.e.
+    is written across the ring's wrap, followed by matches that read ring positions 0..17 - for the three start
+    positions (SZDD 4080, QBasic/KWAJ 4078).  yields (label, tokens, start)"""
+    for start in (4080, 4078):
+        for target in range(4086, 4096):
+            need = target - start                      # bytes to emit before the literal group
+            # first groups: 8 tokens each; use k literals + matches of length 3.. to land exactly
+            toks = []
+            # one group of 7 literals + 1 match of length m (3..18) advances 7 + m; else plain 8-literal groups
+            rem = need
+            while rem >= 8 + 10 + 8: toks += [("L", rng.randrange(256)) for _ in range(8)]; rem -= 8
+            if rem >= 10:
+                m = rem - 7
+                if 3 <= m <= 18: toks += [("L", rng.randrange(256)) for _ in range(7)] + [("M", None, m)]; rem = 0
+            if rem != 0: continue
+            group = [("L", 0x60 + i) for i in range(8)]
+            after = [("Mabs", 0, 8), ("Mabs", 2, 3), ("L", 0x21), ("Mabs", (target + 8) % 4096 - 3 if (target + 8) % 4096 >= 3 else 0, 5)]
+            yield f"start{start}-group@{target}", toks, group, after, start
+
+def chm_sec0_beyond_length(rng):
+    """a well-formed CHM whose header section 0 then claims a file length that ends inside (or before) an uncompressed
+    member: the member's extent lies beyond `chm->length` although the bytes are there (a CHM with trailing data, or a
+    lying length).  yields (label, case, member index, declared length)"""
+    import struct
+    for _ in range(60):
+        try:
+            case = vgen_case(rng, "chm", "small")
+        except Exception:
+            continue
+        mem = case["members"]
+        cand = [j for j, m in enumerate(mem) if m["section"] == 0 and len(m["data"]) >= 8]
+        if not cand: continue
+        nm = case["meta"]["order"][0]; b = bytearray(case["files"][nm])
+        hdr = case["meta"]["expect"]["header"]; sec0 = hdr["sec0"]
+        hs0 = struct.unpack_from("<Q", b, 0x38)[0]
+        j = rng.choice(cand); m = mem[j]
+        for label, newlen in (("ends-inside", sec0 + m["offset"] + len(m["data"]) // 2), ("ends-at-start", sec0 + m["offset"]),
+                              ("ends-before", max(0x60, sec0 + m["offset"] - 5)), ("ends-one-short", sec0 + m["offset"] + len(m["data"]) - 1)):
+            b2 = bytearray(b); struct.pack_into("<Q", b2, hs0 + 8, newlen)
+            yield label, dict(case, files={nm: bytes(b2)}), j, len(m["data"])
+        return
+
+def two_cabinets_damaged_second(rng):
+    """two unrelated single-part cabinets opened on one decompressor: members of A, then a member of B whose folder
+    cannot be set up (unknown method / bad window size), then members of A again.  yields (lines, expected digests of A)"""
+    from lib import minicab
+    import zlib
+    def ck(d):
+        co = zlib.compressobj(9, zlib.DEFLATED, -15); return b"CK" + co.compress(d) + co.flush()
+    for comp_a in (0, 1):
+        da = bytes(rng.choice(b"abcdefg\n") for _ in range(3000)); db = bytes(rng.choice(b"ABCDEFG ") for _ in range(3000))
+        pa = [((ck(da) if comp_a else da), len(da))]
+        caba, _ = minicab.build([(comp_a, pa)], [dict(name=b"good.bin", length=1000, offset=0, folder=0), dict(name=b"next.bin", length=2000, offset=1000, folder=0)])
+        for bad in (4, 15, 3 | (9 << 8), 2 | (30 << 8), 3 | (26 << 8)):
+            cabb, _ = minicab.build([(bad, [(db, len(db))]), (0, [(db, len(db))])], [dict(name=b"bad.bin", length=3000, offset=0, folder=0), dict(name=b"fine.bin", length=3000, offset=0, folder=1)])
+            yield ([f"file a.cab {caba.hex()}", f"file b.cab {cabb.hex()}", "new cab", "open i0 a.cab", "open i0 b.cab",
+                    "extract i0 h0 0 a0", "extract i0 h1 0 bad", "extract i0 h0 0 a0again", "extract i0 h0 1 a1", "extract i0 h1 1 fine", "extract i0 h0 1 a1again",
+                    "close i0 h1", "close i0 h0", "destroy i0"], dict(comp_a=comp_a, bad=bad))
+
+def oab_odd_uncompressed_cases(rng, count=10):
+    """OAB full files whose single LZX DELTA block is a run of tiny uncompressed LZX blocks (1 and 2 bytes: each costs a
+    header, 12 bytes of R0-R2 and a pad byte) followed by one large uncompressed block that crosses the 32 KiB chunk
+    boundary: the position of that boundary relative to the decoder's input buffer sweeps all residues, odd ones
+    included.  yields case dicts (kind oab)"""
+    from vgen import oab, lzx
+    for k in range(count):
+        a = rng.randrange(0, 16); b = rng.randrange(0, 8); big = rng.choice([33000, 39505, 40001, 65537 - a - 2 * b])
+        n = a + 2 * b + big
+        data = bytes(rng.choice(b"abcdefgh\x00\xe8") for _ in range(n))
+        toks = [("L", x) for x in data]
+        blocks = [("uncompressed", 1)] * a + [("uncompressed", 2)] * b + [("uncompressed", big)]
+        rng.shuffle(blocks); blocks.sort(key=lambda x: x[1] > 2)       # the big one last, the small ones in random order
+        try:
+            frames, total, info = lzx.lzx_frames(toks, oab.window_bits(n), delta=True, ref=b"", blocks=blocks, rng=rng)
+        except Exception:
+            continue
+        f = oab.full_file([{"data": data, "payload": b"".join(frames), "lzx": True}])
+        yield {"kind": "oab", "files": {"full.oab": f}, "members": [{"name": b"out", "data": data}],
+               "meta": {"order": ["full.oab"], "blocks": [{"lzx_blocks": ["uncompressed"] * len(blocks)}], "directed": f"odd-uncompressed-{a}x1+{b}x2+{big}"}}
